@@ -346,13 +346,15 @@ prop("C14", level="proof", bounded=[],
                  "every run item is processed exactly once by the function for its kind (mutually recursive contracts); "
                  "run_model calls reporter.feature for every feature, run or not. Collector: every visit increments exactly the "
                  "counter of the element's kind under its status (plus the hook-error counter iff its hook failed). "
-                 "Line formats, Counter arithmetic, the ModelVisitor traversal and the 'all' sums are bounded only",
+                 "the collector's traversal visits every step of a scenario (background steps included) exactly once in order; the "
+                 "problem listings are printed iff some scenario failed or errored. Line formats, Counter arithmetic and the "
+                 "'all' sums are bounded only",
      technique="contract-based deductive verification (own VC generator over the real ASTs, z3/cvc5): recursive census "
                "definitions + loop invariants over the real tree walk; bounded run-time contract stand-in for the text formats",
      notes=["the census is defined recursively over run_items / rows_of(outline) / all_steps_of(scenario); these model lists are "
             "assumed not to be the reporter's own listing lists",
             "a status without a row in a v1 table raises KeyError (visible crash): partial correctness w.r.t. KeyError",
-            "ModelVisitor.visit_* (collector traversal), StatusCounts/Counter arithmetic and format_summary_* are not under contract"])
+            "ModelVisitor.visit_feature/visit_rule/visit_scenario_outline, StatusCounts/Counter arithmetic and format_summary_* are not under contract"])
 
 # -- end of run: the problem listings are printed iff there is something to list ----------------------------------
 ghost("listing_printed", "int")
